@@ -25,7 +25,8 @@ ID = "C07"
 RULE = ("packages with 1-3 implementation modules, 1-9 definitions, each exported object re-exported by exactly one module "
         "(5 import forms x 2 __all__ spellings x package/sibling; a renamed export may clash with an unrelated class of the defining module), 1-2 consumer modules with 1-4 uses each (7 ways of reaching x 5 ways "
         "of using), x every reachable processing order (thorough: exhaustive when <= 120, else 64 evenly spaced; quick: exhaustive when <= 24, else 32). Non-trivial when >=1 object is re-exported and >=1 "
-        "consumer reaches it through the defining module or an outdated name; distinct by hash of the abstract project.")
+        "consumer reaches it through the defining module or an outdated name; distinct by hash of the abstract project. Plus an exhaustive family of 60 packages whose __init__ defines an object "
+        "that a module of the package re-exports, the module's name beginning with the object's name or not (p.conn by p.connection), x every order.")
 ASSUMPTIONS = [
     "at most one re-exporter per object and the defining module does not list the object in its own __all__ (the statement's precondition)",
     "'leads to' = resolveName / Class.baseobjects / the href produced by the annotation linker or by link_xref is that object (its url)",
@@ -230,14 +231,71 @@ def check_project(proj: Dict[str, Any], order_pick: Optional[int] = None) -> Tup
     return out, info
 
 
+def check_prefix_family() -> Tuple[List[Tuple[str, str, Dict[str, Any]]], int, int]:
+    """An object defined in a package's __init__ and re-exported by a module of that package whose name begins with the object's name
+    (p.conn by p.connection, p.a by p.api), with unrelated names as control: exhaustive small family x every processing order.
+    Returns (discrepancies with their case, systems built, cases)."""
+    out: List[Tuple[str, str, Dict[str, Any]]] = []
+    built = ncases = 0
+    for name in ('a', 'ap', 'apix', 'conn', 'zz'):
+        for kind in ('func', 'class'):
+            for exporter in ('api', 'apiary', 'connection'):
+                for form in ('from p import %s', 'from . import %s'):
+                    case = {'kind': 'prefix', 'name': name, 'okind': kind, 'exporter': exporter, 'form': form}
+                    ncases += 1
+                    d, nb = check_prefix_case(case)
+                    built += nb
+                    out += [(sig, msg, case) for sig, msg in d]
+    return out, built, ncases
+
+
+def check_prefix_case(case: Dict[str, Any]) -> Tuple[List[Tuple[str, str]], int]:
+    name, kind, exporter, form = case['name'], case['okind'], case['exporter'], case['form']
+    Q = '"' * 3
+    body = ('def %s():\n    ' + Q + 'ID:1' + Q + '\n' if kind == 'func' else 'class %s:\n    ' + Q + 'ID:1' + Q + '\n    def m(self):\n        ' + Q + 'ID:1.m' + Q + '\n') % name
+    files = {'p/__init__.py': body, 'p/%s.py' % exporter: (form % name) + '\n__all__ = [%r]\n' % name,
+             'p/user.py': 'import p\nfrom p.%s import %s as new\n' % (exporter, name)}
+    mods = files_to_mods(files)
+    want = 'p.%s.%s' % (exporter, name)
+    desc = '\n'.join('--- %s\n%s' % (k, v) for k, v in sorted(files.items()))
+    nb = 0
+    for od in orders_for(mods, MAX_ORDERS):
+        names = [(mods[i][1] + '.' if mods[i][1] else '') + mods[i][0] for i in od]
+        s = build_in_order(mods, od)
+        nb += 1
+        o = s.allobjects.get(want)
+        if o is None or o.docstring != 'ID:1':
+            return [('documented-at:prefix-named-exporter', '%s\norder %s: %s is listed in __all__ of p.%s but %s is %r; the object is at %s' % (
+                desc, names, name, exporter, want, o, [k for k, x in s.allobjects.items() if x.docstring == 'ID:1']))], nb
+        if ('p.' + name) in s.allobjects:
+            return [('still-at-old-location', '%s\norder %s: p.%s is still registered after the move' % (desc, names, name))], nb
+        u = s.allobjects['p.user']
+        if u.resolveName('new') is not o or u.expandName('p.' + name) != want:
+            return [('consumer-broken', '%s\norder %s: p.user: `new` resolves to %r, the old name p.%s expands to %r' % (desc, names, u.resolveName('new'), name, u.expandName('p.' + name)))], nb
+    return [], nb
+
+
 def plan(tier: str, seed: int, scale: float = 1.0) -> List[Any]:
     n = ncpu()
     total = int((800 if tier == "quick" else 6000) * scale)
-    return [{'n': max(1, total // n), 'seed': seed * 1000 + i} for i in range(n)]
+    return [{'n': max(1, total // n), 'seed': seed * 1000 + i} for i in range(n)] + [{'kind': 'prefix'}]
 
 
 def work(item: Dict[str, Any]) -> Acc:
     acc = Acc()
+    if item.get('kind') == 'prefix':
+        ds, built, ncases = check_prefix_family()
+        bad = {id(c): True for _s, _m, c in ds}
+        for i in range(ncases):
+            acc.case(key=('prefix', i), nontrivial=True, sample={'prefix_named_exporter_family': i} if i == 0 else None, classes=['prefix-named-exporter'])
+        acc.notes['systems_built'] = acc.notes.get('systems_built', 0) + built
+        for sig, msg, case in ds:
+            try:
+                judge(ID, acc, case, [(sig, msg)])
+            except Violation as v:
+                acc.violations.append(v.as_dict())
+                break
+        return acc
 
     def body(proj):
         d, info = check_project(proj)
@@ -251,4 +309,6 @@ def work(item: Dict[str, Any]) -> Acc:
 
 
 def replay(case: Dict[str, Any]) -> List[Tuple[str, str]]:
+    if case.get('kind') == 'prefix':
+        return check_prefix_case(case)[0]
     return check_project(case)[0]
